@@ -292,6 +292,16 @@ def judge(part, mix, interval, script):
     # ---- scripted operations: accepted ones produced their actions in their bar ----------------------------------------------------------
     for oc in o["outcomes"]:
         part.count(f"op.{oc[3]}")
+    accepted_in_bar = {}
+    for oc in o["outcomes"]:
+        if oc[3] == "ok":
+            b = 0 if oc[1] == "initialize" or oc[0] < 0 else oc[0]
+            accepted_in_bar[b] = accepted_in_bar.get(b, 0) + 1
+    for b, n_ok in accepted_in_bar.items():
+        if b < len(bars):
+            stamped = sum(1 for a in act.actions if a.timestamp == bars[b].to_pydatetime())
+            if stamped < n_ok:
+                return bad("action|missing", "an accepted operation left no action record stamped with its bar", {"bar": b, "accepted_operations": n_ok, "records": stamped})
     # ---- account history ------------------------------------------------------------------------------------------------------------------
     df = act.account_status_df
     part.count("history_checks")
@@ -356,6 +366,12 @@ def cases(thorough):
                 for s1, s2 in itertools.combinations(singles[:: 2], 2):
                     if n_raw <= 60:
                         out.append((mix, interval, [s1, s2]))
+            if mix == "deribit+uni" and interval == "1min":
+                # cash moves into / out of the option account on bars where the hourly market is closed: accepted operations like any other (recorded,
+                # stamped, notified in that bar)
+                for hook in ("on_bar", "after_bar", "trigger"):
+                    out.append((mix, interval, [(1, hook, "deribit.deposit[part]")]))
+                out.append((mix, interval, [(0, "on_bar", "deribit.deposit[part]"), (31, "on_bar", "deribit.withdraw[part]")]))
             out.append((mix, interval, [(min(1, n_bars - 1), "on_bar", good[0]), (min(1, n_bars - 1), "notify", good[-1])]))
             out.append((mix, interval, [(0, "after_bar", good[0]), (0, "notify", good[0])]))
             if not thorough:
